@@ -6,7 +6,7 @@ ID = "C09"
 LEVEL = "proof"
 LEAN_MODULE = "Frost.Props.C09"
 THEOREMS = ["Frost.C09.round2_accept_iff", "Frost.C09.part2_ok_lengths", "Frost.C09.part3_ok_consistent",
-            "Frost.C09.pkp_function_of_commitments", "Frost.C09.common_set_can_sign"]
+            "Frost.C09.pkp_function_of_commitments", "Frost.C09.common_set_can_sign", "Frost.C09.refresh_round2_accept"]
 RULE = ("one case = one delivery history for one participant: an assignment of {run A, run B, absent} to each round-one slot and of {(run, addressee)} or absent to each round-two slot, executed as part2 then part3 with the same round-one map; "
         "non-trivial = part2 accepted the round-one map, so that part3's share checks were exercised (otherwise trivial); distinct = hash of the two requests")
 ASSUMPTIONS = ["history space as in the property: one slot per sender, the same round-one map for part2 and part3 (the API's documented requirement; see DESIGN.md O-2 for what happens otherwise)",
@@ -80,9 +80,70 @@ def histories(sess, suite, n, tA, tB, sample=None):
     sess.count("suite:" + suite)
 
 
+def refresh_histories(sess, suite, n, t, sample=None):
+    """the distributed refresh re-uses the key-generation messages: the same acceptance rule for round-two shares.
+    Two concurrent refresh runs over one key; on top of the honest history, every single and every double fault in the
+    round-two slots of every participant, where a slot may hold ANY share of either run (any sender, any addressee)."""
+    rng = sess.rng
+    r, shares, pkp = dealer(sess, suite, n, t)
+    if not r.ok:
+        return
+    kps = keypkgs(sess, suite, shares)
+    ids = list(kps.keys())
+    runs = {}
+    for name in "AB":
+        d = Dkg(sess, suite, n, t, ids, refresh=True)
+        d.part1()
+        if d.ok:
+            d.part2()
+        if not d.ok:
+            return
+        runs[name] = d
+    A = runs["A"]
+    for me in ids:
+        others = [x for x in ids if x != me]
+        honest = {l: ("A", l, me) for l in others}
+        alts = [(rn, snd, adr) for rn in "AB" for snd in ids for adr in ids if snd != adr]
+        faults = []
+        for l in others:
+            for a in alts:
+                if a != honest[l]:
+                    faults.append({l: a})
+        for l1, l2 in itertools.combinations(others, 2):
+            # two faults at once: in particular the two slots swapped, where the errors cancel in any summed check
+            faults.append({l1: honest[l2], l2: honest[l1]})
+            for _ in range(3):
+                faults.append({l1: rng.choice(alts), l2: rng.choice(alts)})
+        if sample and len(faults) > sample:
+            keep = [f for f in faults if len(f) == 2][: sample // 2]
+            faults = keep + rng.sample([f for f in faults if f not in keep], sample - len(keep))
+        r1 = r1_str(A.pkg1, me)
+        for f in [{}] + faults:
+            slots = dict(honest)
+            slots.update(f)
+            r2 = ";".join("%s:%s" % (l, runs[rn].r2[snd][adr]) for l, (rn, snd, adr) in slots.items())
+            req = "refresh_dkg3 %s sp2=%s r1=%s r2=%s pkp=%s kp=%s" % (suite, A.sp2[me], r1, r2, pkp, kps[me])
+            p3 = sess.call(req, EXACT, "refresh_dkg3-history")
+            same = all(runs[rn].r2[snd][adr] == A.r2[l][me] for l, (rn, snd, adr) in slots.items())
+            sess.case("rh|" + req, nontrivial=True)
+            if not f:
+                sess.oracle(p3.ok, "distributed refresh: the honest history is refused (%s)" % p3.raw[:80], [req])
+            elif suite in REAL_SUITES and not same:
+                sess.oracle(not p3.ok, "distributed refresh: a round-two share that does not belong to the contribution filed for its sender (or was addressed to someone else) was accepted", [req])
+            sess.count("refresh-part3-" + ("ok" if p3.ok else (p3.err or "err")))
+    sess.count("refresh-histories:" + suite)
+
+
 def generate(sess):
     rng = sess.rng
     thorough = sess.tier != "quick"
+    for suite in TOY_SUITES:
+        refresh_histories(sess, suite, 3, 2, sample=None if thorough else 60)
+        if thorough:
+            refresh_histories(sess, suite, 4, 2, sample=400)
+            refresh_histories(sess, suite, 4, 3, sample=400)
+    for suite in REAL_SUITES:
+        refresh_histories(sess, suite, 3, 2, sample=40 if thorough else 8)
     for suite in TOY_SUITES:
         for (tA, tB) in [(2, 2), (2, 3), (3, 3), (3, 2)]:
             histories(sess, suite, 3, tA, tB, sample=None if thorough or suite == "toy31" and tA == 2 else 150)
